@@ -38,6 +38,7 @@ import (
 	"net/http/httputil"
 	"net/url"
 	"strings"
+	"sync"
 	"time"
 
 	"github.com/golang/groupcache/lru"
@@ -237,6 +238,9 @@ func processOneRequest(client *http.Client, hostProxy http.Handler, backendID st
 // processes any newly-seen ones.
 func pollForNewRequests(pollingCtx context.Context, client *http.Client, hostProxy http.Handler, backendID string) {
 	previouslySeenRequests := lru.New(requestCacheLimit)
+	// Requests that are still being processed. A long-running request can fall out of the
+	// cache above while the proxy keeps listing it; it must not be started a second time.
+	var inFlight sync.Map
 
 	var retryCount uint
 	for {
@@ -254,7 +258,13 @@ func pollForNewRequests(pollingCtx context.Context, client *http.Client, hostPro
 				for _, requestID := range requests {
 					if _, ok := previouslySeenRequests.Get(requestID); !ok {
 						previouslySeenRequests.Add(requestID, requestID)
-						go processOneRequest(client, hostProxy, backendID, requestID)
+						if _, running := inFlight.LoadOrStore(requestID, true); running {
+							continue
+						}
+						go func(requestID string) {
+							defer inFlight.Delete(requestID)
+							processOneRequest(client, hostProxy, backendID, requestID)
+						}(requestID)
 					}
 				}
 			}
